@@ -82,6 +82,10 @@ type c04Cfg struct {
 	AllowedGroups   []string // --allowed-group: the authorisation decision must follow the TOKEN's groups, element boundaries included
 	ExtraIss        string // issuer string of the extra JWT issuer of this configuration ("" = the second rig IdP)
 	BearerOnly      bool   // configuration differs from "disc" only on the bearer path
+	Alpha           string // structured (YAML) configuration: the provider is defined there, Flags are added to AlphaBaseFlags (c04_alpha.go)
+	NoLiveness      bool   // optional oidcConfig fields are left out: the reference applies the documented defaults, an instance that refuses every token is fine too ("created only from")
+	ClaimsOmitted   bool   // emailClaim / groupsClaim left out of the YAML: which claims feed e-mail and groups (and whether email_verified counts) is not asserted
+	Light           bool   // quick tier: thinned case lists (c04Cfg.trim)
 	P               *vfProxy
 }
 
@@ -155,7 +159,7 @@ func c04Configs(w *vfWorld, idp2 *vfIdP, thorough bool) []*c04Cfg {
 			}, "--extra-jwt-issuers="+idp2.Issuer+"="+c04ExtraAudience, "--insecure-oidc-allow-unverified-email=true"),
 		)
 	}
-	return cfgs
+	return append(cfgs, c04AlphaConfigs(w, thorough)...)
 }
 
 // ---------------------------------------------------------------------------------------------------------
@@ -656,6 +660,9 @@ func c04EVOK(t c04Token, cfg *c04Cfg, v c04Verifier) c04Tri {
 	if !marked {
 		return c04OK
 	}
+	if cfg.ClaimsOmitted {
+		return c04Either // emailClaim left out of the YAML: whether the e-mail read is the "standard e-mail claim" is not decided
+	}
 	if v.Extra {
 		// foreign issuers go through a converter that knows nothing of the e-mail options: the statement's
 		// exceptions (custom e-mail claim, allow-unverified) are not asserted either way there
@@ -834,6 +841,12 @@ func c04Expected(t c04Token, cfg *c04Cfg, v c04Verifier, path string, profile ma
 				f.May = append(f.May, c04L(c04RenderList(g)))
 			} else {
 				f.May = append(f.May, c04Render(g))
+			}
+			if path != "bearer" {
+				// "falling back to the provider's profile endpoint … for claims the token lacks": at the callback AND after a
+				// refresh the profile endpoint is reachable with the access token of the same token response and serves this
+				// claim — the session carries its value, not nothing (a bearer token comes without an access token)
+				f.May = f.May[1:]
 			}
 		}
 		return f
@@ -1081,6 +1094,10 @@ func (r *c04Runner) judge(cfg *c04Cfg, path string, s c04Spec, hdr string, t c04
 				run.Count("callback_without_email_refused", 1)
 				return
 			}
+			if cfg.NoLiveness {
+				run.Count("valid_refused_optional_fields_omitted_"+path, 1)
+				return
+			}
 			run.Inconclusive("valid token refused on " + path + " path")
 			run.Count("valid_refused_"+path, 1)
 			run.SampleEvery(1, func() interface{} { return r.detail(cfg, path, s, hdr, t, ref, obs, "VALID TOKEN REFUSED") })
@@ -1102,6 +1119,9 @@ func (r *c04Runner) judge(cfg *c04Cfg, path string, s c04Spec, hdr string, t c04
 	exp := c04Expected(t, cfg, v, path, profile, prevEmail)
 	var diffs []string
 	chk := func(name string, f c04Field, got string) {
+		if cfg.ClaimsOmitted && (strings.Contains(name, "mail") || strings.Contains(name, "roups")) {
+			return
+		}
 		if !f.accepts(got) {
 			if f.FromToken {
 				diffs = append(diffs, fmt.Sprintf("%s=%q but the token's claim renders as %q", name, vfTrunc(got, 80), vfTrunc(f.Must, 80)))
@@ -1296,6 +1316,10 @@ func (r *c04Runner) refreshProbe(rc *c04Refresh) {
 	if rc.loginErr != nil {
 		// rig trouble: the ordinary login as A did not get through (resource exhaustion on a loaded machine)
 		run.Eval("")
+		if cfg.NoLiveness {
+			run.Count("refresh_login_refused_optional_fields_omitted", 1) // the unchanged tree refuses every token in such a configuration
+			return
+		}
 		run.Inconclusive(fmt.Sprintf("rig: refresh path, ordinary login as A failed (%s): %s", cfg.Name, vfTrunc(rc.loginErr.Error(), 120)))
 		return
 	}
@@ -1559,6 +1583,7 @@ func TestVerif_C04(t *testing.T) {
 		"every single deviation from a valid token, (thorough) every pair of deviations, plus a seeded random sample of combinations; on the callback, refresh and bearer " +
 		"(4 Authorization variants, incl. extra JWT issuer) paths; per configuration kind (discovery / JWKS URL / key file / extra audiences / audience claims / allow-unverified / custom claims / user-id-claim / both e-mail options set / no profile / extra issuer with and without discovery document / allowed-group / skip-nonce, cookie and Redis store). " +
 		"cell = (path, configuration, which clause of V is the ONLY failing one + its variant) or (path, configuration, valid, audience shape, claim set); multi-failure cases are trivial. " +
+		"Round 6: providers defined in the structured (YAML) configuration incl. definitions that leave optional oidcConfig fields out (reference = documented defaults); profile fallback kept across two refreshes (c04_alpha.go). " +
 		"Temporal pairs: a token living 3-5 s is presented while valid and the same raw token again 1.5 s after its exp (bearer, per verifier; and through ValidateSession of a stale cookie session without refresh token)")
 	run.Assume("RSA verification of the reference uses crypto/rsa of the standard library", "the fake provider signs with one RSA key (kid k1); the extra issuer publishes the same key, so only iss/aud separate the two verifiers",
 		"V => session is not asserted (statement says 'only from'); refused valid tokens are counted as inconclusive")
@@ -1572,13 +1597,14 @@ func TestVerif_C04(t *testing.T) {
 
 	cfgs := c04Configs(w, idp2, thorough)
 	for _, cfg := range cfgs {
-		p, err := w.NewProxy(cfg.Flags...)
+		p, err := c04Build(w, cfg)
 		if err != nil {
 			t.Fatalf("c04: config %s: %v", cfg.Name, err)
 		}
 		cfg.P = p
 	}
 	r.temporal(cfgs)
+	r.profileFallback(cfgs)
 	for ci, cfg := range cfgs {
 		rng := rand.New(rand.NewSource(run.Env.Seed*1000003 + int64(ci)))
 		base := c04Baseline(cfg, false)
@@ -1593,6 +1619,7 @@ func TestVerif_C04(t *testing.T) {
 		if len(cfg.Verifiers) > 1 {
 			beSpecs = append(beSpecs, c04Specs(rng, c04Baseline(cfg, true), bePairs, run.Env.Pick(30, 400))...)
 		}
+		cbSpecs, rfSpecs, beSpecs = cfg.trim(cbSpecs, thorough), cfg.trim(rfSpecs, thorough), cfg.trim(beSpecs, thorough)
 
 		// refresh path, phase 1: sessions of identity A issued ten minutes in the past (global pkg/clock mock, quiescent point)
 		var rcs []*c04Refresh
